@@ -1,13 +1,164 @@
 /-
-  C18 — HULC file parsers recover every value that is written in the file (block layer).
+  C18 — HULC file parsers recover every value that is written in the file (block layer of the BDL parser).
+
+  Statement proved: for every document — a list of written blocks (quoted name, any padding around `=`, a type
+  of the table, one or more attributes with bare, quoted or multi-line parenthesised values) — and every file
+  text whose physical lines (LF or CRLF ended, padded, interleaved with comment and blank lines) reduce to the
+  document's lines, `build_blocks` returns exactly the written blocks: type, name, every attribute value (numbers
+  typed as numbers with the written digits), and as parent the nearest preceding block of the enclosing class.
 -/
-import Cte.Model.Bdl
+import Cte.Lemmas.BdlBlock
+import Cte.Lemmas.BdlParents
+import Cte.Lemmas.BdlNum
 
 namespace Cte.Props.C18
 open Cte.Bdl
 
-/-- placeholder anchor so that the module has a checked statement while the layered theorems are added -/
-theorem splitDots_ne_nil (s : Str) : splitDots s ≠ [] := by
-  fun_induction splitDots s <;> simp_all
+theorem skipped_quote (r : Str) : skipped ('"' :: r) = false := by
+  have : Cte.Gen.skippedBlockPrefixes.map String.toList =
+      [['S','E','T','-','D','E','F','A','U','L','T'], ['E','N','D'], ['C','O','M','P','U','T','E'], ['S','T','O','P']] := by decide
+  unfold skipped
+  rw [show Cte.Gen.skippedBlockPrefixes.any (fun p => startsWith p.toList ('"' :: r)) =
+      (Cte.Gen.skippedBlockPrefixes.map String.toList).any (fun p => startsWith p ('"' :: r)) from by rw [List.any_map]; rfl]
+  rw [this]
+  simp [startsWith, List.isPrefixOf]
+
+theorem blockText_head (b : WBlock) : ∃ r, blockText b.lines = '"' :: r := by
+  unfold blockText WBlock.lines
+  cases hl : b.attrs.flatMap WAttr.lines with
+  | nil => exact ⟨_, rfl⟩
+  | cons x t => exact ⟨_, rfl⟩
+
+theorem parseAll_texts (doc : List WBlock) (hwf : ∀ b ∈ doc, b.WF) :
+    parseAll (doc.map (fun b => blockText b.lines)) = .ok (doc.map WBlock.expected) := by
+  induction doc with
+  | nil => rfl
+  | cons b t ih =>
+    obtain ⟨r, hr⟩ := blockText_head b
+    have hs : skipped (blockText b.lines) = false := by rw [hr]; exact skipped_quote r
+    simp only [List.map_cons, parseAll, hs, Bool.false_eq_true, if_false, parseBlock_text b (hwf b (by simp)),
+      ih (fun x hx => hwf x (by simp [hx]))]
+
+/-- the conditions on a document: every block well formed, no `..` inside a line, and the text does not
+    contain one of the two legacy preamble markers (`"DATOS GENERALES" = GENERAL-DATA`, `"Defecto" = DESCRIPTION`),
+    which would make the parser wrap what precedes them into a PARTELIDER block -/
+structure DocWF (doc : List WBlock) : Prop where
+  blocks : ∀ b ∈ doc, b.WF
+  no_dots : ∀ b ∈ doc, ∀ l ∈ b.lines, noDD l = true
+  no_marker : ∀ m ∈ Cte.Gen.preambleMarkers,
+    splitAtSub m.toList (joinWith ['\n'] (docLines (doc.map WBlock.lines))) = none
+
+theorem sanitize_no_marker (input : Str)
+    (h : ∀ m ∈ Cte.Gen.preambleMarkers, splitAtSub m.toList (cleanLines input) = none) :
+    sanitize input = cleanLines input := by
+  unfold sanitize
+  have : Cte.Gen.preambleMarkers.findSome? (fun m => splitAtSub m.toList (cleanLines input)) = none := by
+    apply List.findSome?_eq_none_iff.mpr
+    intro m hm
+    exact h m hm
+  simp only [this]
+
+/-- **parse ∘ print = id** for the block layer -/
+theorem buildBlocks_print (doc : List WBlock) (phys : List PLine)
+    (hbody : ∀ l ∈ phys, BodyOK l.body)
+    (hlog : ((phys.map (·.body)).map trim).filter keepLine = docLines (doc.map WBlock.lines))
+    (hwf : DocWF doc) :
+    buildBlocks (render phys) = .ok (assignParents {} (doc.map WBlock.expected)) := by
+  have hclean : cleanLines (render phys) = joinWith ['\n'] (docLines (doc.map WBlock.lines)) := by
+    rw [cleanLines_render phys hbody, hlog]
+  unfold buildBlocks
+  rw [sanitize_no_marker _ (by rw [hclean]; exact hwf.no_marker), hclean]
+  have hsplit := blockTexts_split (doc.map WBlock.lines) [] (Or.inl rfl)
+    (by intro b hb; obtain ⟨w, _, rfl⟩ := List.mem_map.mp hb; simp [WBlock.lines])
+    (by intro b hb; obtain ⟨w, hw, rfl⟩ := List.mem_map.mp hb; exact hwf.no_dots w hw)
+    (by intro b hb; obtain ⟨w, hw, rfl⟩ := List.mem_map.mp hb; exact w.text_clean (hwf.blocks w hw))
+  simp only [List.nil_append] at hsplit
+  rw [hsplit, blocksFold_eq, List.map_map]
+  have := parseAll_texts doc hwf.blocks
+  simp only [Function.comp_def] at this ⊢
+  rw [this]
+
+/-- every written attribute value is recovered: with distinct keys, the stored attributes of block `i` are the
+    written keys with their stored values, in order -/
+theorem attrs_recovered (b : WBlock) (hn : (b.attrs.map (·.key)).Nodup) :
+    b.expected.attrs = b.attrs.map (fun a => (a.key, a.val.stored)) := by
+  simpa [WBlock.expected] using storedAttrs_nodup b.attrs [] (by simpa using hn)
+
+/-- the parent of block `i` is the nearest preceding block of the enclosing class: the last FLOOR for a SPACE
+    (`Default` when there is none), the last SPACE for a wall, the last wall for a WINDOW / CONSTRUCTION / DOOR -/
+theorem parent_recovered (doc : List WBlock) (i : Nat) (h : i < doc.length) :
+    ((assignParents {} (doc.map WBlock.expected))[i]'(by rw [assignParents_length]; simpa using h)) =
+      { (doc[i]).expected with
+          parent := parentFrom {} ((doc.take i).map WBlock.expected) (doc[i]).expected } := by
+  have := assignParents_getElem {} (doc.map WBlock.expected) i (by simpa using h)
+  simpa [List.map_take] using this
+
+/-! ### the physical lines of a file reduce to the logical lines -/
+
+/-- a padded content line is kept as its content -/
+theorem logical_kept (ind content tr : Str) (rest : List Str) (hi : AllPad ind) (ht : AllPad tr)
+    (hc : Clean content) (hk : keepLine content = true) :
+    (((ind ++ content ++ tr) :: rest).map trim).filter keepLine = content :: (rest.map trim).filter keepLine := by
+  rw [List.map_cons, trim_pad ind content tr hi.allWs ht.allWs hc, List.filter_cons, hk]
+  rfl
+
+/-- blank lines, comments (`$ …`), legacy header lines (`+ …`) disappear -/
+theorem logical_noise (body : Str) (rest : List Str) (hn : keepLine (trim body) = false) :
+    ((body :: rest).map trim).filter keepLine = (rest.map trim).filter keepLine := by
+  simp [List.map_cons, List.filter_cons, hn]
+
+example : keepLine (trim "   ".toList) = false := by decide
+example : keepLine (trim "$ comentario = 1 ..".toList) = false := by decide
+example : keepLine (trim "+-----+".toList) = false := by decide
+example : keepLine (trim "\tTEMPLARY".toList) = false := by decide
+
+/-! ### the hypotheses are satisfiable: a one-block document and a padded CRLF file for it -/
+
+def exAttr : WAttr := { key := "Z".toList, p1 := "   ".toList, p2 := " ".toList, val := .bare "+3.5".toList }
+def exBlock : WBlock := { name := "P01".toList, btype := "FLOOR".toList, p1 := " ".toList, p2 := "\t".toList, attrs := [exAttr] }
+def exPhys : List PLine :=
+  [⟨"$ cabecera".toList, true⟩, ⟨"  \"P01\" =\tFLOOR ".toList, true⟩, ⟨"".toList, false⟩, ⟨"\tZ   = +3.5".toList, false⟩, ⟨"  ..".toList, true⟩]
+
+theorem exBlock_wf : exBlock.WF where
+  name_clean := clean_of_cleanB (by decide)
+  name_eq := by decide
+  name_quotes := ⟨by decide, by decide⟩
+  type_known := by decide
+  type_clean := clean_of_cleanB (by decide)
+  type_quotes := ⟨by decide, by decide⟩
+  pad1 := allPad_of_padB (by decide)
+  pad2 := allPad_of_padB (by decide)
+  attrs_ne := by decide
+  attrs_wf := by
+    intro a ha
+    simp [exBlock] at ha; subst ha
+    exact ⟨⟨⟨clean_of_cleanB (by decide), by decide⟩, allPad_of_padB (by decide), allPad_of_padB (by decide),
+      ⟨clean_of_cleanB (by decide), ⟨by decide, by decide⟩, by decide⟩⟩, trivial⟩
+  no_eol := by decide
+
+theorem exDoc_wf : DocWF [exBlock] where
+  blocks := by intro b hb; simp at hb; subst hb; exact exBlock_wf
+  no_dots := by decide
+  no_marker := by decide
+
+example : buildBlocks (render exPhys) =
+    .ok [{ btype := "FLOOR".toList, name := "P01".toList, parent := none,
+           attrs := [("Z".toList, Val.num (Num.fin false 35 (-1)))] }] := by
+  rw [buildBlocks_print [exBlock] exPhys (by simp only [BodyOK]; decide) (by decide) exDoc_wf]
+  congr 1
+
+/-! ### a concrete document meets every hypothesis (non-vacuity) and is read back by evaluation -/
+
+def exampleText : String :=
+  "$ cabecera\r\n\"P01\" = FLOOR\r\n   Z   =   +3.5  \r\n   ..\r\n\r\n  \"P01_E01\"=SPACE\n\tPOLYGON = \"P01_E01_Pol\" \n  MATERIAL = ( \"a\",\n      \"b\" )\n ..\n \"M1\" = EXTERIOR-WALL\n LOCATION = SPACE-V1\n ..\n\"H1\" = WINDOW\n X = .5\n ..\n"
+
+example : (buildBlocks exampleText.toList).toOption.map (fun bs => bs.map (fun b => (String.ofList b.name, b.parent.map String.ofList))) =
+    some [("P01", none), ("P01_E01", some "P01"), ("M1", some "P01_E01"), ("H1", some "M1")] := by decide +kernel
+
+example : (buildBlocks exampleText.toList).toOption.map (fun bs => bs.map (fun b => b.attrs.map (fun kv => (String.ofList kv.1, kv.2)))) =
+    some [[("Z", Val.num (Num.fin false 35 (-1)))],
+          [("POLYGON", Val.str "P01_E01_Pol".toList), ("MATERIAL", Val.str "( \"a\",\"b\" )".toList)],
+          [("LOCATION", Val.str "SPACE-V1".toList)],
+          [("X", Val.num (Num.fin false 5 (-1)))]] := by decide +kernel
 
 end Cte.Props.C18
